@@ -9,6 +9,8 @@ An op list is plain data (replayable): each op is a tuple
   ('ins', pos, bytes)           insert bytes
   ('del', pos, n)               delete n bytes
   ('dup', start, end, pos)      splice a copy of [start:end) in at pos
+  ('bmshift', k, bit1)          shift the whole 128-bit bitmap by k positions (k>0: towards higher bit numbers), then force
+                                bit 1 to `bit1` (None = leave): the off-by-one-bit-number shape
   ('fill', pos, n, byte)        overwrite n bytes starting at pos with one byte value
   ('neg', span_idx, k)          length prefix := -k, its value and the next k bytes removed (the next element then starts
                                 inside the prefix: the overlapping-elements shape)
@@ -49,6 +51,19 @@ def apply(data, ops, frames, codec, hexbm):
                     enc = enc[:1] or b'\x00'
                 if e <= n:
                     data[s:e] = (enc + b'0' * (e - s))[:e - s] if len(enc) < e - s else enc[:e - s]
+        elif kind == 'bmshift':
+            width = 32 if hexbm else 16
+            if n >= 4 + width:
+                try:
+                    v = int(bytes(data[4:36]).decode('ascii'), 16) if hexbm else int.from_bytes(data[4:20], 'big')
+                except (ValueError, UnicodeDecodeError):
+                    continue
+                k = op[1]
+                v = (v >> k) if k > 0 else (v << -k)
+                v &= (1 << 128) - 1
+                if op[2] is not None:
+                    v = (v | (1 << 127)) if op[2] else (v & ~(1 << 127))
+                data[4:4 + width] = ('%032x' % v).encode('ascii') if hexbm else v.to_bytes(16, 'big')
         elif kind == 'fill':
             p = min(op[1], n)
             m = min(op[2], n - p)
@@ -123,7 +138,7 @@ def op_lists(draw, data_len, frames, codec, min_ops=1, max_ops=4):
     ops = []
     k = draw(uniform(min_ops, max_ops))
     for _ in range(k):
-        choices = ['sub', 'sub', 'bit', 'trunc', 'ext', 'ins', 'del', 'dup', 'fill', 'bmfill']
+        choices = ['sub', 'sub', 'bit', 'trunc', 'ext', 'ins', 'del', 'dup', 'fill', 'bmfill', 'bmshift']
         if nums:
             choices += ['num', 'num', 'num', 'numsub', 'numsub']
         if any(f[0] == 'len' for f in frames):
@@ -143,6 +158,8 @@ def op_lists(draw, data_len, frames, codec, min_ops=1, max_ops=4):
                 ops.append(('num', idx, draw(st.sampled_from(numeral_texts(codec, width)))))
         elif kind == 'neg':
             ops.append(('neg', draw(uniform(0, 30)), draw(uniform(1, 12))))
+        elif kind == 'bmshift':
+            ops.append(('bmshift', draw(st.sampled_from([1, 1, -1, -1, 2, -2, 8, -8])), draw(st.sampled_from([None, False, False, True]))))
         elif kind == 'fill':
             ops.append(('fill', draw(uniform(0, max(0, data_len - 1))), draw(uniform(2, 6)), draw(st.sampled_from(FILL_BYTES))))
         elif kind == 'bmfill':
